@@ -127,7 +127,10 @@ def _check_ops(spec, res):
         mo2.set_link_exponents(A2)
         j1 = mo1.get_supercurrent(psi)
         j2 = mo2.get_supercurrent(g * psi)
-        ok.append(float(np.max(np.abs(j1 - j2)) / (np.max(np.abs(j1)) + 1e-300)))
+        # relative to the magnitude of the terms (|psi_i| sum_j |G_ej| |psi_j|): for a nearly uniform psi the current is a
+        # small difference of large terms (edge weights ~ 1/length), so max|j| would be the wrong yardstick
+        jscale = np.abs(psi)[e0] * (np.abs(mo1.psi_gradient) @ np.abs(psi))
+        ok.append(float(np.max(np.abs(j1 - j2) / (jscale + 1e-300))))
         lhs = mo2.psi_laplacian @ (g * psi)
         rhs = g * (mo1.psi_laplacian @ psi)
         ok.append(float(np.max(np.abs(lhs - rhs) / ((np.abs(mo1.psi_laplacian) @ np.abs(psi)) + 1e-300))))
